@@ -145,10 +145,15 @@ type c15Scenario struct {
 	InitYields int      `json:"init_yields"`
 	Cancel     bool     `json:"cancel"`
 	InitErrAt  int      `json:"init_err_at"`
+	// Burst > 0: the script is preceded by Burst retransmissions of "t1/1" so that the
+	// machine's receive buffer (512) fills up while the machine cannot drain it.
+	Burst int `json:"burst,omitempty"`
+	// MaxBound caps the exploration bound of this scenario (0 = the tier's bound).
+	MaxBound int `json:"max_bound,omitempty"`
 }
 
 func (sc c15Scenario) String() string {
-	return fmt.Sprintf("states=%d script=%s yields=%d cancel=%v initErr=%d", sc.States, strings.Join(sc.Script, ","), sc.InitYields, sc.Cancel, sc.InitErrAt)
+	return fmt.Sprintf("states=%d script=%s yields=%d cancel=%v initErr=%d burst=%d", sc.States, strings.Join(sc.Script, ","), sc.InitYields, sc.Cancel, sc.InitErrAt, sc.Burst)
 }
 
 type c15Result struct {
@@ -171,7 +176,15 @@ func c15Body(sc c15Scenario, res *c15Result) func() {
 		st := &c15State{NewBaseAsyncState(), 0, n - 1, sc.InitYields, sc.InitErrAt, &res.obs}
 		m := NewAsyncMachine(&testutils.MockLogger{}, ctx, ch, st)
 		vsched.GoDaemon("network", func() {
-			for i, spec := range sc.Script {
+			script := sc.Script
+			if sc.Burst > 0 {
+				script = nil
+				for i := 0; i < sc.Burst; i++ {
+					script = append(script, "t1/1")
+				}
+				script = append(script, sc.Script...)
+			}
+			for i, spec := range script {
 				var typ string
 				var sender int
 				fmt.Sscanf(strings.Replace(spec, "/", " ", 1), "%s %d", &typ, &sender)
@@ -295,7 +308,7 @@ func c15Evaluate(r *vrep.R, sc c15Scenario, bound int, s *vsched.Sched, res *c15
 	}
 	// liveness inside the horizon: all messages sent, nothing failed, nobody cancelled
 	// and the script contains what every state needs => the machine must finish
-	if outcome == "waiting-at-horizon" && res.allSent && !sc.Cancel && sc.InitErrAt < 0 && c15Sufficient(sc) && len(res.delivered) == len(sc.Script) {
+	if outcome == "waiting-at-horizon" && res.allSent && !sc.Cancel && sc.InitErrAt < 0 && c15Sufficient(sc) && len(res.delivered) == len(sc.Script)+sc.Burst {
 		fail("stuck", "all needed messages were delivered but the machine is still waiting at the horizon")
 	}
 	r.Outcome(outcome)
@@ -307,6 +320,9 @@ func c15Evaluate(r *vrep.R, sc c15Scenario, bound int, s *vsched.Sched, res *c15
 
 func c15Sufficient(sc c15Scenario) bool {
 	have := map[string]bool{}
+	if sc.Burst > 0 {
+		have["t1/1"] = true
+	}
 	for _, m := range sc.Script {
 		have[m] = true
 	}
@@ -335,21 +351,24 @@ func TestVerifC15(t *testing.T) {
 	}
 	scenarios := []c15Scenario{
 		// in order
-		{2, []string{"t0/1", "t0/2", "t1/1", "t1/2"}, 1, false, -1},
+		{2, []string{"t0/1", "t0/2", "t1/1", "t1/2"}, 1, false, -1, 0, 0},
 		// the member lags: all future-state messages first, duplicates and a retransmission
-		{2, []string{"t1/1", "t1/2", "t1/1", "t0/1", "t0/2"}, 1, false, -1},
+		{2, []string{"t1/1", "t1/2", "t1/1", "t0/1", "t0/2"}, 1, false, -1, 0, 0},
 		// cancellation at any point
-		{2, []string{"t0/1", "t1/1", "t0/2", "t1/2"}, 1, true, -1},
+		{2, []string{"t0/1", "t1/1", "t0/2", "t1/2"}, 1, true, -1, 0, 0},
 		// a state fails to initiate
-		{2, []string{"t0/1", "t0/2", "t1/1", "t1/2"}, 0, false, 1},
+		{2, []string{"t0/1", "t0/2", "t1/1", "t1/2"}, 0, false, 1, 0, 0},
 		// a peer stays silent for state 1: the machine must keep waiting, not finish
-		{2, []string{"t0/1", "t0/2", "t1/1"}, 0, false, -1},
+		{2, []string{"t0/1", "t0/2", "t1/1"}, 0, false, -1, 0, 0},
 	}
+	// a burst larger than the receive buffer while the machine is not draining: the
+	// handler must exert back-pressure, not drop (bound 0/1 only: ~1300 points per run)
+	scenarios = append(scenarios, c15Scenario{States: 2, Script: []string{"t0/1", "t0/2", "t1/2"}, InitYields: 0, InitErrAt: -1, Burst: asyncReceiveBuffer + 8, MaxBound: 1})
 	maxBound := 2
 	if r.Thorough() {
 		scenarios = append(scenarios,
-			c15Scenario{3, []string{"t2/1", "t2/2", "t1/1", "t1/2", "t0/1", "t0/2"}, 2, false, -1},
-			c15Scenario{3, []string{"t0/1", "t2/2", "t1/1", "t0/2", "t1/2", "t2/1", "t0/1"}, 1, true, -1},
+			c15Scenario{3, []string{"t2/1", "t2/2", "t1/1", "t1/2", "t0/1", "t0/2"}, 2, false, -1, 0, 0},
+			c15Scenario{3, []string{"t0/1", "t2/2", "t1/1", "t0/2", "t1/2", "t2/1", "t0/1"}, 1, true, -1, 0, 0},
 		)
 		maxBound = 3
 	}
@@ -365,14 +384,18 @@ func TestVerifC15(t *testing.T) {
 			r.ReplayedTwice(1)
 			r.Sample(map[string]any{"scenario": sc, "script": a.Choices(), "handed": res.obs.received, "next_calls": res.obs.nextCalled})
 		}
-		for bound := 0; bound <= maxBound; bound++ {
-			if bound < maxBound && shard != 0 {
+		scBound := maxBound
+		if sc.MaxBound > 0 && sc.MaxBound < scBound {
+			scBound = sc.MaxBound
+		}
+		for bound := 0; bound <= scBound; bound++ {
+			if bound < scBound && shard != 0 {
 				continue
 			}
 			o := opts(bound)
 			o.Shard, o.Shards = shard, shards
 			st := vsched.Explore(o, c15Body(sc, &res), func(s *vsched.Sched) { c15Evaluate(r, sc, bound, s, &res) })
-			if bound < maxBound {
+			if bound < scBound {
 				r.Set(fmt.Sprintf("sc%d.bound%d_execs", i, bound), st.Execs)
 			}
 			if st.Stopped {
